@@ -733,3 +733,30 @@ func HausdorffSubs(a, b []Sub, n int) (float64, Pt) {
 	}
 	return worst, at
 }
+
+// NearestOnSubs returns the nearest point of any sub-path to q: sub-path index, position, distance.
+func NearestOnSubs(q Pt, subs []Sub) (si int, pos Pos, d float64) {
+	d = math.Inf(1)
+	for i := range subs {
+		if len(subs[i].Segs) == 0 {
+			if dd := q.Dist(subs[i].Start); dd < d {
+				si, pos, d = i, Pos{}, dd
+			}
+			continue
+		}
+		for k := range subs[i].Segs {
+			if t, dd := subs[i].Segs[k].Nearest(q, 0, 1); dd < d {
+				si, pos, d = i, Pos{k, t}, dd
+			}
+		}
+	}
+	return
+}
+
+// Deriv returns an (unnormalised) tangent direction of the segment at parameter t by central
+// differences of At (sufficient for classifying sides).
+func (s *Seg) Deriv(t float64) Pt {
+	h := 1e-6
+	a, b := math.Max(0, t-h), math.Min(1, t+h)
+	return s.At(b).Sub(s.At(a)).Mul(1 / (b - a))
+}
